@@ -323,10 +323,12 @@ def run(chk, prog):
         chk.require(bool(ok), "ENUM-WEIGHTS", f"{cn}.jvp_estimate", "softmax(probs)" if cn.startswith("Categorical") else "weights",
                     derived=f"sampler passes the parameter as `{role_kw}=`; weights computed as {der}", expected="weights use the parameter in the same role: probs= -> the probabilities themselves", where=w)
     # reparameterised Gaussians: one independent unit-normal draw per coordinate, from the split-off sub key; result loc + scale * eps
-    _shape_of_params = lambda s_: dict(s_[3]).get("sample_shape") is not None and mentions_any(dict(s_[3])["sample_shape"], lambda x: is_call(x, "shape") or (is_t(x, "attr") and x[2] == "shape"))
+    # tfd.Distribution.sample(sample_shape=(), seed=None): the shape positionally or by keyword
+    _shp = lambda s_: s_[2][0] if s_[2] else dict(s_[3]).get("sample_shape")
+    _shape_of_params = lambda s_: _shp(s_) is not None and mentions_any(_shp(s_), lambda x: is_call(x, "shape") or (is_t(x, "attr") and x[2] == "shape"))
     for cn, shape_pred, exp in (("NormalREPARAM", _shape_of_params, "eps ~ N(0, 1) with one independent draw per component: sample_shape from the parameters' (broadcast) shape"),
-                                ("MvNormalDiagREPARAM", lambda s_: dict(s_[3]).get("sample_shape") is not None and mentions_any(dict(s_[3])["sample_shape"], lambda x: is_t(x, "attr") and x[2] == "shape"), "eps ~ N(0, 1) with sample_shape=loc.shape"),
-                                ("MvNormalREPARAM", lambda s_: s_[2] and is_call(s_[2][0], "len"), "eps ~ N(0, 1) with len(mu) draws")):
+                                ("MvNormalDiagREPARAM", lambda s_: _shp(s_) is not None and mentions_any(_shp(s_), lambda x: is_t(x, "attr") and x[2] == "shape"), "eps ~ N(0, 1) with sample_shape=loc.shape"),
+                                ("MvNormalREPARAM", lambda s_: is_call(_shp(s_), "len"), "eps ~ N(0, 1) with len(mu) draws")):
         ci = prog.cls(cn, PRIM)
         evn = Evaluator(prog)
         rn = evn.eval_fn(ci.methods["before_tail_call"], ci.module, ci)
